@@ -59,7 +59,7 @@ use std::time::Duration;
 pub static INFO: PropInfo = PropInfo {
     id: "C11",
     level: "exploration",
-    rule: "one evaluation = one simulated star session: one server, 2-8 initial clients with independent fault profiles per client and direction, clients joining (fresh id) and leaving (remove_connection / disconnect / client-side disconnect) at random ticks, unicast both ways, broadcast_message and broadcast_message_except on all channel kinds, 0-2 hostile clients whose ids receive random, mutated, forged and replayed foreign datagrams, one client with one ordered server->client message dropped forever (head-of-line stall); then the links heal and a deadline computed from the undisturbed clients only is awaited. Oracle: obtained only if addressed / at most once / only under the sender's id (unconditional), exactly-once delivery of every unicast and broadcast to every undisturbed client that stayed connected, no foreign-cause disconnect of an undisturbed client, C01/C02 oracles per undisturbed connection. Non-trivial = at least one broadcast and one broadcast_except were judged for delivery, at least one disturbance (hostile datagram accepted, leave, or stall) happened and link faults occurred; distinct = distinct event-log fingerprints. One run in 10 is a HOST-PLAYER run instead (c11_host.rs): one remote and one LOCAL client (new_local_client / process_local_client / disconnect_local_client), channel lists that differ between the directions in 3 of 4 runs (disjoint ids, same ids with rotated kinds, fewer channels upstream), lossless exchange, unicasts, broadcasts and upstream messages of 24..5000 bytes; in 2 of 3 runs the local client disconnects itself, is closed with disconnect_local_client and opened again under the same id; every obtained message must have been addressed to that client on that channel (once on reliable channels, in order on ordered ones), nobody may end up disconnected, the closed local session must be gone, and after 30 quiet ticks every reliable message must have been obtained.",
+    rule: "one evaluation = one simulated star session: one server, 2-8 initial clients with independent fault profiles per client and direction, clients joining (fresh id) and leaving (remove_connection / disconnect / client-side disconnect) at random ticks, unicast both ways, broadcast_message and broadcast_message_except on all channel kinds, 0-2 hostile clients whose ids receive random, mutated, forged and replayed foreign datagrams, one client with one ordered server->client message dropped forever (head-of-line stall); then the links heal and a deadline computed from the undisturbed clients only is awaited. In a third of the runs one broadcast goes out although one undisturbed target's reliable send budget is exhausted at the library (can_send_message false): that target is dropped by the server (the documented consequence, from then on a client that was told to leave) or is owed the message like everybody else. Oracle: obtained only if addressed / at most once / only under the sender's id (unconditional), exactly-once delivery of every unicast and broadcast to every undisturbed client that stayed connected, no foreign-cause disconnect of an undisturbed client, C01/C02 oracles per undisturbed connection. Non-trivial = at least one broadcast and one broadcast_except were judged for delivery, at least one disturbance (hostile datagram accepted, leave, or stall) happened and link faults occurred; distinct = distinct event-log fingerprints. One run in 10 is a HOST-PLAYER run instead (c11_host.rs): one remote and one LOCAL client (new_local_client / process_local_client / disconnect_local_client), channel lists that differ between the directions in 3 of 4 runs (disjoint ids, same ids with rotated kinds, fewer channels upstream), lossless exchange, unicasts, broadcasts and upstream messages of 24..5000 bytes; in 2 of 3 runs the local client disconnects itself, is closed with disconnect_local_client and opened again under the same id; every obtained message must have been addressed to that client on that channel (once on reliable channels, in order on ordered ones), nobody may end up disconnected, the closed local session must be gone, and after 30 quiet ticks every reliable message must have been obtained.",
     assumptions: &[
         "every message is >= 24 bytes so that it carries its address (connection / 0xFF for broadcast + flags, direction, channel, index) in its header",
         "sessions use fresh client ids (re-use of an id is C10/C12 matter)",
@@ -461,6 +461,10 @@ struct Star {
     captured: Vec<(usize, Vec<u8>)>,
     aborted: bool,
     churn: bool,
+    /// in these runs one broadcast may go out although one target's reliable send window is full at the library
+    /// (`can_send_message` false): that target is disconnected by design - or obtains the message; never neither
+    overflow_run: bool,
+    overflowed: Option<usize>,
 }
 
 impl Star {
@@ -531,11 +535,18 @@ impl Star {
         let connected: Vec<usize> = (0..n).filter(|k| self.server_connected(*k)).collect();
         // memory window guard (an over-budget reliable send disconnects by design)
         let stalled = self.sh.borrow().stalled;
+        let mut overflow: Option<usize> = None;
         for k in connected.iter() {
             if Some(*k) == except {
                 continue;
             }
             if !self.sim.within_window(*k, DOWN, ch, len) {
+                let lib_full = kind.reliable() && !self.sim.server.can_send_message(self.sim.ids[*k], ch, len);
+                let undisturbed = !self.sh.borrow().hostile.contains(k) && !self.sh.borrow().told_to_leave.contains(k) && stalled.map(|s| s.0) != Some(*k);
+                if self.overflow_run && self.overflowed.is_none() && overflow.is_none() && lib_full && undisturbed {
+                    overflow = Some(*k);
+                    continue;
+                }
                 if stalled.map(|s| s.0) == Some(*k) && except.is_none() {
                     except = Some(*k);
                     out.count("broadcast_except_because_stalled_window_full");
@@ -579,6 +590,21 @@ impl Star {
         match except {
             Some(e) => self.sim.server.broadcast_message_except(self.sim.ids[e], ch, b),
             None => self.sim.server.broadcast_message(ch, b),
+        }
+        if let Some(k) = overflow {
+            self.overflowed = Some(k);
+            out.count("broadcast_with_one_target_over_its_send_budget");
+            if !self.server_connected(k) {
+                // the documented consequence: the server dropped that client (SendChannelError); everybody else got
+                // the message queued. From here on it is a client the server application told to leave
+                self.sh.borrow_mut().told_to_leave.insert(k);
+                out.count("broadcast_overflow_target_disconnected_by_design");
+                self.sim.log(format!("t{} broadcast#{} overflowed the send budget of conn {}: disconnected by design", self.sim.tick, bidx, k));
+            } else {
+                // still connected: then it was addressed like everybody else and the delivery obligation stands
+                out.count("broadcast_overflow_target_still_connected");
+                self.sim.log(format!("t{} broadcast#{} issued with conn {} over its send budget: still connected, the message is owed to it", self.sim.tick, bidx, k));
+            }
         }
     }
 
@@ -1026,6 +1052,8 @@ pub fn one_run(ctx: &Ctx, out: &mut Outcome, run_seed: u64) {
         captured: Vec::new(),
         aborted: false,
         churn: r.chance(4, 5),
+        overflow_run: (run_seed >> 9) % 3 == 0,
+        overflowed: None,
     };
     let retx_before = out.get("retransmissions");
     let bo_before = out.get("broadcast_obligations_checked");
